@@ -399,7 +399,7 @@ def obs_codes(w):
     return out
 
 
-def random_trace(rng, nsteps, p_restart=0.03, p_cut=0.06, p_timeout=0.04, p_lookup=0.22, maxhints=3):
+def random_trace(rng, nsteps, p_restart=0.03, p_cut=0.06, p_timeout=0.04, p_lookup=0.14, maxhints=3):
     """-> (world, groups) where groups = [(model ops of this step, observation after it, description)]"""
     w = World()
     groups = []
@@ -560,22 +560,29 @@ def scenario(kind, seed, p):
             seq0 = list(w.tub["M"].master_table.values())
             seq0 = seq0[0] if seq0 else 0
             n0 = len(w.results)
-            w.lookup(x, p["hints"])
+            new = w.lookup(x, p["hints"])
             settle(w, rng, chunk)
             E.clock.advance(0.5)
             E.turn()
             settle(w, rng, chunk)
             seq1 = list(w.tub["M"].master_table.values())
             seq1 = seq1[0] if seq1 else 0
-            facts.update(seq_before=seq0, seq_after=seq1, results=[r["fired"] for r in w.results[n0:]])
+            # offers of this round that the master accepted = new links whose master end switched to Banana
+            accepted = sum(1 for l in new if "connectionLost" in w.end_of(l, "M").protocol.__dict__)
+            facts.update(seq_before=seq0, seq_after=seq1, accepted=accepted, results=[r["fired"] for r in w.results[n0:]])
             bad = agreement_problem(w)
             if bad:
                 return "agreement", bad, facts
-            if seq1 - seq0 > 1 or w.live_broker_link("M") is None or w.results[n0]["fired"] != ["ok"]:
+            if accepted == 0 or seq1 - seq0 != 1:
+                if accepted == 0:
+                    return "no-connection-without-faults", "no parallel attempt was accepted: %r" % (facts,), facts
+                if accepted == 1:
+                    return "seqnum-not-advanced", "one offer accepted but the master's seqnum went %d -> %d" % (seq0, seq1), facts
+            if accepted > 1 or w.live_broker_link("M") is None or w.results[n0]["fired"] != ["ok"]:
                 return ("redundant-attempt-displaces-established/%s" % hist,
                         "%d parallel hints after history %r: the master accepted %d of the parallel offers of one peer incarnation "
                         "(an established connection was displaced by a redundant attempt); final brokers M=%r S=%r; lookup result %r"
-                        % (p["hints"], hist, seq1 - seq0, w.live_broker_link("M"), w.live_broker_link("S"), w.results[n0]["fired"]),
+                        % (p["hints"], hist, accepted, w.live_broker_link("M"), w.live_broker_link("S"), w.results[n0]["fired"]),
                         facts)
         elif kind == "restart-displaces":
             # a stale connection (the peer restarted, the loss not yet noticed) must be displaced by the new incarnation
@@ -664,9 +671,9 @@ def run_corpus(ctx):
 def run_all(ctx):
     rng = ctx.rng
     seed = lambda: rng.randrange(1 << 30)
-    for i in range(ctx.n(120, 4000)):
+    for i in range(ctx.n(300, 6000)):
         run_case(ctx, "crossfire", seed(), dict(hints=dict(M=rng.randint(1, 3), S=rng.randint(1, 3)), bytes=(i % 3 == 0)))
-    for i in range(ctx.n(150, 5000)):
+    for i in range(ctx.n(400, 8000)):
         run_case(ctx, "faults", seed(), dict(steps=rng.choice([10, 25, 50, 90]), bytes=(i % 4 == 0)))
     for who in NAMES:
         for hist in ("fresh", "both-lost", "dialer-lost-only", "peer-restarted"):
